@@ -23,9 +23,10 @@ using Buf = ffsm2::detail::StreamBufferT<CAP>;
 using WS = ffsm2::detail::BitWriteStreamT<CAP>;
 using RS = ffsm2::detail::BitReadStreamT<CAP>;
 static unsigned bit(const Buf& b, unsigned i) { return (b.data()[i >> 3] >> (i & 7)) & 1u; }
-static_assert(Buf::BYTE_COUNT * 8 >= CAP, "buffer holds its declared bit capacity");
+static const bool bytes_ok = Buf::BYTE_COUNT * 8 >= CAP;      // the buffer holds its declared bit capacity
 
 extern "C" int harness(void) {
+  vassert(bytes_ok, 1300);
 #if MODE == 0
   using Item = ffsm2::UBitWidth<W>;
   Buf b;
